@@ -78,8 +78,18 @@ fn build_route(route: usize, metric: DistanceMetric, dim: usize, data: &[Vec<f32
     match route {
         // online inserts
         0 => {
-            let b = HnswBackend::new(dim, metric, vec![], vec![], n + 16)?;
+            // every other id is first written with a different vector and then overwritten: the
+            // superseded version must not stay searchable
+            let b = HnswBackend::new(dim, metric, vec![], vec![], n + n / 2 + 16)?;
             for (i, v) in data.iter().enumerate() {
+                if i % 2 == 0 {
+                    let mut old = data[(i * 13 + 5) % n].clone();
+                    old[0] += 0.02;
+                    if normalizes(metric) {
+                        normalize(&mut old);
+                    }
+                    b.insert(i as u64, old, HashMap::new())?;
+                }
                 b.insert(i as u64, v.clone(), HashMap::new())?;
             }
             Ok(b)
